@@ -3,7 +3,13 @@
 package l2tp
 
 import (
+	"context"
+	"net"
 	"testing"
+
+	"github.com/google/gopacket/layers"
+	"github.com/veesix-networks/osvbng/pkg/dataplane"
+	"github.com/veesix-networks/osvbng/pkg/logger"
 
 	pppdisp "github.com/veesix-networks/osvbng/internal/ppp"
 	"github.com/veesix-networks/osvbng/pkg/ppp"
@@ -11,7 +17,72 @@ import (
 
 // l2ppp <net>,<v6up>,<fsm> <frame>: internal/l2tp dispatchPPPFrame (HDLC address/control strip, protocol field) in front of
 // the shared PPP dispatcher; callbacks as in the disp harness.
+// c07RecDispatcher: a dispatcher whose callbacks record what they are given (no automata installed).
+func c07RecDispatcher(log *[]string) *pppdisp.Dispatcher {
+	return &pppdisp.Dispatcher{
+		HandlePAP: func(code, id uint8, data []byte) error {
+			*log = append(*log, "6", c07U(uint64(code)), c07U(uint64(id)), c07TB(data))
+			return nil
+		},
+		HandleCHAP: func(code, id uint8, data []byte) error {
+			*log = append(*log, "7", c07U(uint64(code)), c07U(uint64(id)), c07TB(data))
+			return nil
+		},
+		OnEchoReq:          func(id uint8, data []byte) { *log = append(*log, "2", c07U(uint64(id)), c07TB(data)) },
+		OnEchoRep:          func(id uint8, data []byte) { *log = append(*log, "3", c07U(uint64(id)), c07TB(data)) },
+		OnProtocolReject:   func(p uint16) { *log = append(*log, "4", c07U(uint64(p))) },
+		SendProtocolReject: func(p uint16, pl []byte) { *log = append(*log, "10", c07U(uint64(p)), c07TB(pl)) },
+		HandleIPv6:         func(pl []byte) error { *log = append(*log, "1", c07TB(pl)); return nil },
+		PhaseFn:            func() ppp.Phase { return ppp.PhaseNetwork },
+	}
+}
+
+// l2dg - <datagram> <authorised LAC host name>: one L2TP datagram through Component.Dispatch on a component that knows one
+// session (peer 10.0.0.1, tunnel 7, session 9) and authorises one LAC host name.  Data frames (T=0) come from 10.0.0.1,
+// control frames from 10.0.0.2 (so that they never hit the pre-registered, FSM-less tunnel).  Observables: the PPP callbacks
+// the session's dispatcher received; the host name handed to the LNS-config resolver and the peer tunnel id of the tunnel an
+// SCCRQ created (+1; 0 = none).  Whether Dispatch returned an error is not compared.
+func c07L2TPDatagram(f []string) string {
+	body := c07Arg(f, 0)
+	auth := string(c07Arg(f, 1))
+	c := New(logger.NewTest())
+	defer c.Stop(context.Background())
+	var resolved [][]byte
+	c.resolveLNSConfig = func(h string) (LNSConfig, bool) {
+		resolved = append(resolved, []byte(h))
+		return LNSConfig{LocalHostname: "lns"}, h == auth
+	}
+	var log []string
+	peer := net.IPv4(10, 0, 0, 1)
+	_ = c.registerTunnel(&Tunnel{PeerIP: peer, LocalID: 7, Sessions: map[uint16]*Session{9: {LocalID: 9, PPPDispatcher: c07RecDispatcher(&log)}}})
+	src := peer
+	if len(body) > 0 && body[0]&0x80 != 0 {
+		src = net.IPv4(10, 0, 0, 2)
+	}
+	pkt := &dataplane.ParsedPacket{IPv4: &layers.IPv4{SrcIP: src, DstIP: net.IPv4(10, 0, 0, 254)},
+		UDP: &layers.UDP{BaseLayer: layers.BaseLayer{Payload: body}}}
+	_ = c.Dispatch(pkt)
+	if len(log) > 0 {
+		return c07Ok(append([]string{"30"}, log...)...)
+	}
+	if len(resolved) > 0 {
+		created := uint64(0)
+		c.mu.RLock()
+		for _, t := range c.tunnels {
+			if t.PeerIP.Equal(net.IPv4(10, 0, 0, 2)) {
+				created = uint64(t.PeerID) + 1
+			}
+		}
+		c.mu.RUnlock()
+		return c07Ok("20", c07TB(resolved[0]), c07U(created))
+	}
+	return "ok 0"
+}
+
 func c07IL2TP(entry string, n []uint64, f []string) string {
+	if entry == "l2dg" {
+		return c07L2TPDatagram(f)
+	}
 	if entry != "l2ppp" {
 		return "badline"
 	}
